@@ -308,8 +308,9 @@ def c18_r7(ctx):
     if fd is None:
         raise AnalysisError("MemPerDocWriter.finish_doc vanished")
     ctx.saw(fd)
-    kept = sorted(set(norm.canon(t.value).split(".")[-1] for st in ast.walk(fd.node) if isinstance(st, ast.Assign) for t in st.targets
-                      if isinstance(t, ast.Subscript) and norm.canon(t.value).startswith("self._segment.")))
+    al = norm.aliases(fd.node)
+    kept = sorted(set(norm.canon(t.value, al).split(".")[-1] for st in ast.walk(fd.node) if isinstance(st, ast.Assign) for t in st.targets
+                      if isinstance(t, ast.Subscript) and norm.canon(t.value, al).startswith("self._segment.")))
     ctx.ob(fd, len(kept) >= 3, "finish_doc files the document's data on the shared segment", detail=str(kept))
     for name, f in sorted(K.methods.items()):
         creates = [c for c in norm.calls_in(f.node) if norm.call_name(c) == "create_file" and norm.canon(norm.receiver(c)).startswith("self._storage")]
